@@ -18,8 +18,18 @@ def handle (α : Type) [Arith α] [Wire α] : List Sexp → Sexp
   | [.atom "parse", .str s] => encRes (parseText s.toList)
   | _ => app "err" [.atom "bad-request"]
 
-/-- words that start (in any letter case) with `true`/`false` without being exactly that literal: the
-`boolean` rule has no boundary look-ahead and is tried before `variable`. -/
+def lowerChar (c : Char) : Char := if decide ('A' ≤ c) && decide (c ≤ 'Z') then Char.ofNat (c.toNat + 32) else c
+
+/-- (matched text, remainder) when the word starts, in any letter case, with `true` / `false` -/
+def boolPrefix (w : String) : Option (String × String) :=
+  let cs := w.toList
+  if (cs.take 4).map lowerChar == ['t', 'r', 'u', 'e'] then some (String.ofList (cs.take 4), String.ofList (cs.drop 4))
+  else if (cs.take 5).map lowerChar == ['f', 'a', 'l', 's', 'e'] then some (String.ofList (cs.take 5), String.ofList (cs.drop 5))
+  else none
+
+/-- REGRESSION classification (defect repaired in cf0e033): words that start (in any letter case) with
+`true`/`false` without being exactly that literal — before the repair the `boolean` rule had no boundary
+look-ahead, was case-insensitive and was tried before `variable`. -/
 def hasBoolPrefixWord : List Tok → Bool
   | .word w :: .lpar :: rest => (!(isFunctionName w) && boolish w) || hasBoolPrefixWord rest
   | .word w :: rest => boolish w || hasBoolPrefixWord rest
